@@ -19,7 +19,7 @@ def dispatch (st : DState) (line : String) : DState × String :=
       match cliCmd cmd a with
       | some s => (st, s)
       | none =>
-        match srvCmd st cmd a with
+        match (if cmd = "newcfg" then newcfgCmd a else srvCmd st cmd a) with
         | some r => r
         | none => (st, "bad-op")
 
